@@ -521,6 +521,7 @@ def run(rep, tier_, rng):
         regimes[c["regime"]] = regimes.get(c["regime"], 0) + 1
     params = {"sentence_timeout": 60 if q else 150, "single_timeout": 70 if q else 300}
     budget = (118 if q else 1150) - tgen
+    insts, not_attempted = calcb.fit_budget(insts, max(30, budget))
     run_and_report(rep, insts, calls, tag="C26_%s" % tier_, params=params, budget=max(30, budget), jobs=JOBS,
                    rule="each evaluation = one call of quad/quadts/quadgl of the current /repo code on a generated integrand "
                         "(P(x)e^(ax){1,sin bx,cos bx}; rational functions with poles at distance >= 1; Gaussians on (half-)infinite "
@@ -530,7 +531,7 @@ def run(rep, tier_, rng):
                         "lemma per distinct result plus an RInt (`integral` tactic) lemma for a subset with p <= 100; distinct = distinct "
                         "lemma statements; non-trivial = the error is not exactly 0 against a folded rational",
                    assumptions=ASSUMPTIONS,
-                   extra_cov={"regimes": regimes, "generation_wall_s": round(tgen, 1), "tolerance": "2^(10-p)*max(|I|,1)",
+                   extra_cov={"lemmas_not_attempted_for_time": not_attempted, "regimes": regimes, "generation_wall_s": round(tgen, 1), "tolerance": "2^(10-p)*max(|I|,1)",
                               "rint_lemmas": sum(1 for i in insts if i.meta.get("rint")), **stats})
 
 
